@@ -8,7 +8,7 @@ from ..affine import AFile, Bytes, Exec, Lin, State
 from ..callgraph import get_callgraph
 from ..cfg import cfg_of
 from ..model import AnalysisError, dotted, norm, walk_own
-from .common import find_calls, guards_of, key_of
+from .common import find_calls, guards_of, key_of, resolve_locals
 
 EXPLANATION = (
     "Affine symbolic execution of every method of FileBasedBuffer (and subclasses) over an abstract file (pos, end) and "
@@ -157,6 +157,8 @@ def rule_r1(ctx, rid="C17.R1"):
     sp, se = Lin.sym("src.pos0"), Lin.sym("src.end0")
     for st in finals:
         frm = st.assume.get("%s is not None" % f.params[2])
+        if frm is None and ("%s is None" % f.params[2]) in st.assume:
+            frm = not st.assume["%s is None" % f.params[2]]
         if frm is False:
             ok = st.files[F].E - st.files[F].P == st.attrs["self.remain"]
             if ok:
@@ -193,6 +195,8 @@ def rule_r1(ctx, rid="C17.R1"):
             filearg = args[0]
         if filearg is None:
             continue
+        if isinstance(filearg, ast.Name):
+            filearg = resolve_locals(s.func, filearg) or filearg  # file = BytesIO(); ...__init__(self, file, ...)
         txt = norm(filearg)
         if s.func.cls is not None and s.func.cls.name == "ReadOnlyFileBasedBuffer":
             continue
@@ -333,7 +337,11 @@ def rule_r3(ctx, rid="C17.R3"):
                         creates = [x for x in g.nodes if x.kind == "stmt" and isinstance(x.ast, ast.Assign) and dotted(x.ast.targets[0]) == "buf"
                                    and isinstance(x.ast.value, ast.Call) and dotted(x.ast.value.func) == "self._create_buffer"]
                         defs = [x for x in g.nodes if x.kind == "stmt" and isinstance(x.ast, ast.Assign) and dotted(x.ast.targets[0]) == "buf" and dotted(x.ast.value) == "self.buf"]
-                        if nones and all(g.path(x, node, avoid=creates, follow_exc=False) is None for x in nones) and defs:
+                        # a later test of the same local cannot come out "not None" on such a path (the local is only re-bound by the creation)
+                        notnones = [x for x in g.nodes if x.kind == "branch" and isinstance(x.ast, ast.Compare) and dotted(x.ast.left) in ("buf", "self.buf")
+                                    and isinstance(x.ast.comparators[0], ast.Constant) and x.ast.comparators[0].value is None
+                                    and ((isinstance(x.ast.ops[0], ast.Is) and not x.polarity) or (isinstance(x.ast.ops[0], ast.IsNot) and x.polarity))]
+                        if nones and all(g.path(x, node, avoid=creates + notnones, follow_exc=False) is None for x in nones) and defs:
                             safe = True
                         elif dotted(c.func.value) == "buf" and not defs and creates and any(g.dominates(cn, node) for cn in creates):
                             # the local is only ever the freshly created delegate
@@ -475,6 +483,8 @@ RULES = [rule_r1, rule_r2, rule_r3, rule_r4, rule_r5]
 from ..selftest import M, T, V  # noqa: E402
 
 selftest = [
+    M("tempfile-ctor-drops-source", "buffers.py", "        FileBasedBuffer.__init__(self, self.newfile(), from_buffer)", "        super().__init__(self.newfile())", "R1"),
+    T("tempfile-ctor-super", "buffers.py", "        FileBasedBuffer.__init__(self, self.newfile(), from_buffer)", "        super().__init__(self.newfile(), from_buffer)"),
     M("append-no-restore", "buffers.py", "        file.seek(0, 2)\n        file.write(s)\n        file.seek(read_pos)\n        self.remain = self.remain + len(s)", "        file.seek(0, 2)\n        file.write(s)\n        self.remain = self.remain + len(s)", "R1"),
     M("append-off-by-one", "buffers.py", "        self.remain = self.remain + len(s)\n", "        self.remain = self.remain + len(s) + 1\n", "R1"),
     M("get-skip-by-request", "buffers.py", "        if skip:\n            self.remain -= len(res)\n        else:\n            file.seek(read_pos)\n        return res\n\n    def skip", "        if skip:\n            self.remain -= numbytes\n        else:\n            file.seek(read_pos)\n        return res\n\n    def skip", "R1"),
